@@ -115,8 +115,26 @@ func runC26(w *World, r *Report) {
 						outer = outer.Parent()
 					}
 
+					// a program value that reaches the sink by a route that does
+					// not pass the sandbox helper: `confined + ext` with a
+					// program-supplied ext is not confined
+					aroundHelper := func(id string) bool {
+						return !strings.HasSuffix(id, ".sandboxName") && !strings.HasSuffix(id, "util.SandboxJoin")
+					}
+
+					confined := derivesFrom(path, isSandboxCall, through)
+
 					switch {
-					case derivesFrom(path, isSandboxCall, through):
+					case confined && c26Exceptions[fnKey(outer)] == "" && derivesFrom(path, func(v ssa.Value) bool {
+						c, isCall := v.(*ssa.Call)
+						if isCall && isSandboxCall(c) {
+							return false
+						}
+
+						return isProgramValue(fn)(v)
+					}, aroundHelper):
+						r.Violate("R-C26-1", key, w.pos(ci.Pos()), "the path given to "+id+" is a confined path joined with text the program supplies after the confinement: `..` elements in that text lead out of the sandbox root (io.Expand(\"a\", \"b/../../outside/secret.txt\") reads outside)")
+					case confined:
 						r.Discharge("R-C26-1", key, w.pos(ci.Pos()), "path is the result of the sandbox helper")
 					case c26Exceptions[fnKey(outer)] != "":
 						r.Except("R-C26-1", key, w.pos(ci.Pos()), c26Exceptions[fnKey(outer)])
